@@ -312,6 +312,11 @@ def reuse(job, ex, step, order, ratio, nt):
             job.prove('reused instance == fresh instance', sn.lift(u) == sn.lift(v), box, info)
 
 
+def _same_sym(a, b):
+    a, b = sn.as_symc(a), sn.as_symc(b)
+    return z3.is_true(z3.simplify(z3.And(sn.lift(a.re) == sn.lift(b.re), sn.lift(a.im) == sn.lift(b.im))))
+
+
 def struct(job, ex, nt, cplx):
     """fresh symbolic sequences: non-negative errors, column independence, all three branches"""
     for length in range(1, 7):
@@ -337,6 +342,19 @@ def struct(job, ex, nt, cplx):
         new, err, st = p.result
         errl = np.asarray(err)
         newl = np.asarray(new)
+        # the documented alias extrapolate(sequence, steps) is the same map (also for complex sequences)
+        def harness_alias():
+            with tr.traced(), cm.quiet():
+                return ex.Richardson(step_ratio=2.0, step=1, order=1, num_terms=nt).extrapolate(seq, steps)
+        pa = sn.run_single(harness_alias, assumptions=pos)
+        if pa.exc is not None:
+            job.violation('alias', dict(key='C07:extrapolate-alias-differs', kind='alias', length=length, nt=nt, cplx=bool(cplx), exc=repr(pa.exc)[:200]))
+        else:
+            na, ea, _sa = pa.result
+            same = np.shape(na) == np.shape(new) and all(_same_sym(u, w) for u, w in zip(cm.flat_list(na), cm.flat_list(new))) and \
+                all(_same_sym(u, w) for u, w in zip(cm.flat_list(ea), cm.flat_list(err)))
+            if not job.confirm('extrapolate alias == __call__ len=%d' % length, bool(same)):
+                job.violation('alias', dict(key='C07:extrapolate-alias-differs', kind='alias', length=length, nt=nt, cplx=bool(cplx)))
         for i in range(errl.shape[0]):
             for c in range(cols):
                 e = errl[i, c]
@@ -411,6 +429,21 @@ def replay(cex):
             return True, ('Richardson(num_terms=%d) instance first called with a sequence of length %d returns %r for a length-%d sequence; '
                           'a fresh instance returns %r' % (nt, short, a1[0].ravel(), nt + 3, a2[0].ravel()))
         return False, 'reused instance equals fresh instance'
+    if kind == 'alias':
+        length, ntv = cex['length'], cex['nt']
+        rng = np.random.default_rng(3)
+        for trial in range(3):
+            seq = rng.normal(size=(length, 2)) + (1j * rng.normal(size=(length, 2)) if cex.get('cplx') else 0)
+            steps = 0.5 ** np.arange(length)[:, None] * np.ones((1, 2))
+            with cm.quiet():
+                try:
+                    a = ex.Richardson(step_ratio=2.0, step=1, order=1, num_terms=ntv).extrapolate(seq, steps)
+                except Exception as e:  # noqa
+                    return True, 'Richardson.extrapolate raises %s: %s' % (type(e).__name__, e)
+                b = ex.Richardson(step_ratio=2.0, step=1, order=1, num_terms=ntv)(seq, steps)
+            if not all(np.array_equal(np.asarray(u), np.asarray(w)) for u, w in zip(a, b)):
+                return True, 'Richardson.extrapolate(sequence, steps) = %r differs from Richardson.__call__ = %r' % (a[0].ravel()[:3], b[0].ravel()[:3])
+        return False, 'alias equals __call__'
     if kind in ('struct', 'columns'):
         length = cex['length']
         rng = np.random.default_rng(1)
